@@ -212,6 +212,9 @@ def select_region(body, region):
     for w in region.get('within', ()):
         hit = None
         todo = list(body)
+        use_else = w.startswith('else of ')        # 'else of <header>': the else branch of that compound statement
+        if use_else:
+            w = w[len('else of '):]
         while todo and hit is None:
             st = todo.pop(0)
             if _norm(ast.unparse(st)).startswith(_norm(w)) and hasattr(st, 'body'):
@@ -225,7 +228,7 @@ def select_region(body, region):
             todo = sub + todo
         if hit is None:
             raise EngineError('region anchor not found: %r' % w)
-        body = hit.body
+        body = hit.orelse if use_else else hit.body
     i0 = None
     nth = region.get('nth', 1)            # the nth top-level statement that starts with the anchor text
     for i, st in enumerate(body):
